@@ -110,7 +110,7 @@ class Env:
         return {
             self.names["a"]: rng.randint(-3, 8),
             self.names["b"]: rng.randint(-3, 8),
-            self.names["s"]: rng.choice(["", "x", "abc", "k", "Hello", "m"]),
+            self.names["s"]: rng.choice(["", "x", "abc", "k", "Hello", "m", "Zo\u00eb", "na\u00efve \u2713"]),
             self.names["xs"]: xs,
             self.names["d"]: d,
             self.names["o"]: ("OBJ", rng.randint(-2, 6), [rng.randint(0, 4) for _ in range(rng.randint(0, 3))], rng.choice(["o", "p", ""])),
@@ -235,7 +235,11 @@ class Gen:
         rng = self.rng
         if d >= self.max_depth or rng.random() < 0.4:
             return rng.choice([self.n("xs"), self.n("xs"), "{}.items".format(self.n("o")), "G_LIST"])
-        k = rng.choice(["display", "comp", "filter", "sorted", "slice", "keys", "concat", "comp2"])
+        k = rng.choice(["display", "comp", "filter", "sorted", "slice", "keys", "concat", "comp2", "star_display", "star_tuple"])
+        if k == "star_display" and self.has("star"):
+            return "[*{}, {}]".format(self.list_expr(d + 1), self.int_leaf())
+        if k == "star_tuple" and self.has("star") and self.env.can_use("list"):
+            return "list(({}, *{}))".format(self.int_leaf(), self.list_expr(d + 1))
         if k == "display":
             return "[{}]".format(", ".join(self.int_expr(d + 1) for _ in range(rng.randint(1, 3))))
         if k == "comp" and self.has("comprehension"):
@@ -256,7 +260,11 @@ class Gen:
 
     def other_container(self, d: int) -> str:
         rng = self.rng
-        k = rng.choice(["set", "dict", "tuple", "setdisp", "dictdisp"])
+        k = rng.choice(["set", "dict", "tuple", "setdisp", "dictdisp", "star_set", "star_dict"])
+        if k == "star_set" and self.has("star"):
+            return "{{*{}, {}}}".format(self.list_expr(d + 1), self.int_leaf())
+        if k == "star_dict" and self.has("star"):
+            return "{{**{}, 'q': {}}}".format(self.n("d"), self.int_leaf())
         if k == "set":
             return "{{x % 3 for x in {}}}".format(self.list_expr(d + 1))
         if k == "dict":
@@ -271,7 +279,8 @@ class Gen:
         rng = self.rng
         if d >= self.max_depth:
             return "{} {} {}".format(self.int_leaf(), rng.choice(["<", "<=", ">", ">=", "==", "!="]), self.int_leaf())
-        opts = ["cmp", "cmp", "chain", "and", "or", "not", "in_dict", "in_list", "all", "any", "strcmp", "isinst", "truth", "container_eq"]
+        opts = ["cmp", "cmp", "chain", "and", "or", "not", "in_dict", "in_list", "all", "any", "strcmp", "isinst", "truth", "container_eq",
+                "all_value"]
         if self.env.with_none:
             opts += ["none_guard", "is_none"]
         if rng.random() < self.guarded_bias:
@@ -297,6 +306,14 @@ class Gen:
             return "{} {} {}".format(self.int_expr(d + 1), rng.choice(["in", "not in"]), self.list_expr(d + 1))
         if k == "all" and self.has("all") and self.env.can_use("all"):
             return self.all_expr(d)
+        if k == "all_value" and self.has("all") and self.env.can_use("all"):
+            # the VALUE of a (possibly failed) quantifier used by an enclosing expression
+            inner = self.all_expr(d)
+            t = rng.choice(["str({q}) == 'True'", "(({q}) == False and {b})", "[{q}][0]", "({q}) is True", "ident({q}) and {b}",
+                            "({q}) == ({b})", "(0 if {q} else {i}) > {i2}"])
+            if "str(" in t and not self.env.can_use("str"):
+                t = "({q}) is True"
+            return t.format(q=inner, b=self.bool_expr(d + 2), i=self.int_leaf(), i2=self.int_leaf())
         if k == "any" and self.has("comprehension") and self.env.can_use("any"):
             if rng.random() < 0.3:
                 return "any(x < {} and {}[0] < x for x in {})".format(self.int_leaf(), self.list_expr(d + 1), self.n("xs"))
